@@ -6,6 +6,7 @@
      XD <id> <dflags> <dicthex> <framehex> <calls>   the same with a dictionary attached for indefinite use (StreamInstDict.v)
      SD <id> <dflags> <dicthex> <framehex>     specification decoder started from the dictionary
      DU <id> <ops>                             dictionary-selection state machine (see cmd_du)
+     DI <id> <id1>:<id2> <ops>                 dictionary-ID / refMultipleDDicts state machine (see cmd_di)
      S <id> <dflags> <framehex>                specification decoder   -> <id> OK <hex> | <id> ERR <name>
      O <id> <dflags> <framehex> <cap>          one-shot model          -> idem
      B <id> <dflags> <framehex>                buffer-less protocol (begin + continue fed exactly the expected size)
@@ -139,6 +140,38 @@ let cmd_du id ops =
         | 'S' -> OpResetSession | 'A' -> OpResetParams | 'F' -> OpFrame | 'K' -> OpSkippable
         | 'O' -> OpOneShot (nat_of_int (arg t)) | _ -> failwith "bad DU op") in
       s := fst (dd_step !s op)
+    end) (split ',' ops);
+  Printf.printf "%s OK %s\n" id (if Buffer.length b = 0 then "-" else Buffer.contents b)
+
+(* DI <id> <id1>:<id2> <ops> : dictionary-ID state machine (DictIdModel.v, round 3), D = dictionary index (1, 2 = the two structured
+   dictionaries, 3 = dictionary 2 used as raw prefix: ID 0) ; ops comma separated:
+   L<k> R<k> P<k> (k = 0 : none) | M<0|1> (refMultipleDDicts) | S | A | N | K | F<fid> (streamed frame naming fid) |
+   O<fid>/<fid>/... (one ZSTD_decompressDCtx call) | q (print state) ; fid : 0 none, 1 / 2 the ID of dictionary 1 / 2, 3 an ID nobody has
+   -> <id> OK <item>;...  item = q=<dict index>,<dictUses> | f=<dict index>:<0|1>  (one f per frame start, in order) *)
+let cmd_di id ids ops =
+  let id1, id2 = (match split ':' ids with [a; b] -> n_of_string a, n_of_string b | _ -> failwith "bad ids") in
+  let did k = if k = 1 then id1 else if k = 2 then id2 else N0 in
+  let fid k = if k = 1 then id1 else if k = 2 then id2 else if k = 3 then n_of_int 999999 else N0 in
+  let s = ref ds_new and b = Buffer.create 256 in
+  let optd k = if k = 0 then None else Some k in
+  let arg t = int_of_string (String.sub t 1 (String.length t - 1)) in
+  List.iter (fun t ->
+    if t = "q" then
+      Buffer.add_string b (Printf.sprintf "q=%d,%d;" (match (!s).ds_dict with None -> 0 | Some k -> k)
+                             (match (!s).ds_uses with DontUse -> 0 | UseOnce -> 1 | UseIndef -> -1))
+    else if t = "N" then s := ds_new
+    else begin
+      let op = (match t.[0] with
+        | 'L' -> ILoad (optd (arg t)) | 'R' -> IRefDDict (optd (arg t)) | 'P' -> IRefPrefix (optd (arg t))
+        | 'M' -> ISetMulti (arg t <> 0)
+        | 'S' -> IResetSession | 'A' -> IResetParams | 'K' -> ISkippable
+        | 'F' -> IFrame (fid (arg t))
+        | 'O' -> IOneShot (List.map (fun x -> fid (int_of_string x)) (split '/' (String.sub t 1 (String.length t - 1))))
+        | _ -> failwith "bad DI op") in
+      let (s', rs) = ds_step did !s op in
+      s := s';
+      List.iter (fun ((o, _), ok) ->
+        Buffer.add_string b (Printf.sprintf "f=%d:%d;" (match o with None -> 0 | Some k -> k) (if ok then 1 else 0))) rs
     end) (split ',' ops);
   Printf.printf "%s OK %s\n" id (if Buffer.length b = 0 then "-" else Buffer.contents b)
 
@@ -281,6 +314,7 @@ let () =
           | "SD" -> let (p, _) = parse_dflags t.(2) in
                     with_dict t.(1) t.(3) (fun d -> print_res t.(1) (rspec_decode_d d p (slice (arr_of_hex t.(4)) 0 max_int)))
           | "DU" -> cmd_du t.(1) t.(2)
+          | "DI" -> cmd_di t.(1) t.(2) t.(3)
           | "S" -> let (p, _) = parse_dflags t.(2) in print_res t.(1) (rspec_decode p (slice (arr_of_hex t.(3)) 0 max_int))
           | "O" -> let (p, _) = parse_dflags t.(2) in print_res t.(1) (roneshot p (slice (arr_of_hex t.(3)) 0 max_int) (n_of_string t.(4)))
           | "B" -> cmd_b t.(1) t.(2) t.(3)
